@@ -41,4 +41,13 @@ void c_positions(void)
   __CPROVER_assert(o.x == x0, "[C09] POST _1 of a by-value parameter is the mock function's own copy: writing it does not touch the caller's variable");
   __CPROVER_assert(0, "REACH! c_positions");
 }
+void c_arity15(void)
+{
+  SMALL(x0); struct OBS15 o; g_tracer_obj_ptr = 0;
+  C09_A15(x0, &o);
+  __CPROVER_assert(vp_exc == 0 && vp_rep_n == 0 && !vp_terminated, "[C09] POST a call of the arity-15 mock function is accepted silently");
+  for (int i = 0; i < 15; i++) __CPROVER_assert(o.v[i] == x0 + i + 1, "[C09] POST _1.._15 denote the fifteen arguments in positional order, by reference");
+  __CPROVER_assert(o.ret == x0 + 15, "[C09] POST RETURN(_15) is evaluated after the side effect and sees the written argument");
+  __CPROVER_assert(0, "REACH! c_arity15");
+}
 int main(void) { VP_ENTRY(); return 0; }
